@@ -43,8 +43,7 @@ def run(ev, vd):
         else:
             rc, o, dt = conc.run_harness(binp, [out, ev.seed * 100 + k, tier(), mode], topo=topo, timeout=600)
         return j, out, rc, o
-    with cf.ThreadPoolExecutor(max_workers=8) as ex:
-        results = list(ex.map(job, list(enumerate(jobs))))
+    results = conc.pmap(job, list(enumerate(jobs)), lambda j: j[1][0])
     paths = []
     for (k, (mode, binp, topo)), out, rc, o in results:
         if rc == 124:
